@@ -145,6 +145,7 @@ func runProxy(c *driver.Ctx, t string, variant int, consumer string, k *kase) *f
 	var r1, r2 fetchRes
 	var cached visibility
 	var probed bool
+	fetches1 := 0
 	var f *fail
 	fetch := func(r *fetchRes) {
 		if consumer == "FetchAll" {
@@ -166,6 +167,7 @@ func runProxy(c *driver.Ctx, t string, variant int, consumer string, k *kase) *f
 		fetch(&r1)
 		cached = probe(cache, desc)
 		probed = true
+		fetches1 = base.fetches
 		fetch(&r2)
 	}
 	hung, pn := bubble(c.T, body)
@@ -216,21 +218,28 @@ func runProxy(c *driver.Ctx, t string, variant int, consumer string, k *kase) *f
 		}
 	}
 	if consumer == "FetchAll" {
-		for i, r := range []fetchRes{r1, r2} {
-			if !r.done {
-				continue
-			}
-			rd := &sreader{}
-			if i < len(base.readers) {
-				rd = base.readers[i]
-			}
-			if f := judgeData(c, t+" FetchAll", k, rd, r.out, r.err); f != nil {
-				f.detail = fmt.Sprintf("fetch #%d through the proxy: %s", i+1, f.detail)
+		if r1.done {
+			if f := judgeData(c, t+" FetchAll", k, base.readers[0], r1.out, r1.err); f != nil {
+				f.detail = "fetch #1 through the proxy (cache fill): " + f.detail
 				return f
 			}
 		}
+		switch {
+		case !r2.done:
+		case base.fetches > fetches1:
+			// served by the base again: same oracle
+			if f := judgeData(c, t+" FetchAll", k, base.readers[len(base.readers)-1], r2.out, r2.err); f != nil {
+				f.detail = "fetch #2 through the proxy (from the base): " + f.detail
+				return f
+			}
+		case r2.err == nil:
+			// served by the cache: the source of this fetch is the cached content itself
+			if !k.full() || !bytes.Equal(r2.out, k.want()) {
+				return failf(t+" FetchAll: second fetch (from the cache) handed back data that is not the named content", "returned %q; %s", clip(r2.out), k.class())
+			}
+		}
 	}
-	if r1.done && r2.done && base.fetches == 1 {
+	if r1.done && r2.done && base.fetches == fetches1 {
 		c.Count("second_fetch_served_from_cache", 1)
 	}
 	return nil
